@@ -245,6 +245,7 @@ public:
                              .set("expected", jC(want)).set("got", jC(g)).set("what", isT ? "element differs from dense reference" : "object not involved in the operation changed / differs"));
                 }
             }
+            checkContiguityClaim(o);
             // element addresses: a view must alias exactly the owner's elements its map names
             // (finds wrong element maps even when the values involved happen to be equal)
             if (!o.isOwner && o.nr * o.nc > 0) {
@@ -314,7 +315,26 @@ public:
         return op + "|" + kKindName[o.kind] + (o.own->external ? "(ext)" : "") + (contig ? "|contig" : "|strided") + "|d" + std::to_string(std::min(o.depth, 3)) +
                ((o.t ^ o.own->ownerT) & 1 ? "|neg" : "|pos") + (o.trans ? "|T" : "|N") + "|" + typeName(o.t);
     }
-    void cover(const std::string& op, Obj& o) { c.cover(covKey(op, o)); }
+    // hasContiguousData() == true is a promise that the elements occupy one gap-free run of memory (callers then
+    // use getContiguousScalarData() as a flat array). Judged on the element addresses the library itself hands out
+    // (getElt), not on the harness' memory model: the library is free to choose row or column order for an owner.
+    // (false for a packed object is only a lost fast path and is not judged.)
+    void checkContiguityClaim(Obj& o) {
+        const int n = o.nr * o.nc;
+        if (n <= 1) return;
+        bool contig = false; long span = 0; int lr = 0, lc = 0;
+        withT(o.t, [&](auto tt) { constexpr int T = decltype(tt)::value;
+            const auto& b = asBase<T>(o); contig = b.hasContiguousData(); lr = b.nrow(); lc = b.ncol();
+            if (!contig || lr * lc != n) return;
+            const char *lo = nullptr, *hi = nullptr;
+            for (int jj = 0; jj < lc; ++jj) for (int ii = 0; ii < lr; ++ii) { const char* a = (const char*)&b.getElt(ii, jj); if (!lo || a < lo) lo = a; if (!hi || a > hi) hi = a; }
+            span = (long)((hi - lo) / (long)sizeof(EltT<T>)) + 1; });
+        if (!contig || lr * lc != n) return;
+        c.check("query:hasContiguousData-claimed-for-strided-elements", span == n ? 0.0 : 1.0, 0.5, [&] {
+            return vh::Json::obj().set("object", tag(o)).set("nrow", o.nr).set("ncol", o.nc).set("elements", n).set("address_span_in_elements", (double)span).set("family", famName()).set("history", histJson()); });
+        if (span != n) throw SeqAbort();
+    }
+    void cover(const std::string& op, Obj& o) { c.cover(covKey(op, o)); checkContiguityClaim(o); }
     bool libColumnOrder(Obj& o) {
         bool v = false;
         withT(o.t, [&](auto tt) { constexpr int T = decltype(tt)::value;
